@@ -165,3 +165,13 @@ Lemma ex_iterable_instance :
   = (let w := MkWire 3 0 (VInt 255) (VInt 255) (VInt 0) (VInt SCP_signal) [(1%nat, 20, 15, 4 + AppDiag_count)]
                      [(FByte, 1%nat, 0, VInt 9)] in [w; w; w], None).
 Proof. vm_compute. reflexivity. Qed.
+
+(* An observation the prescription makes explicit (rd rsf_p / rd read_p): get_processor_status(5) inside
+   `with c(x=1, y=2, p=3)`.  The caller's p = 5 selects the address (which core's record is read); the two
+   reads themselves are calls of read_struct_field / read that do not pass p on, so THEIR core argument is
+   resolved again -- from the context (3), not the monitor core 0 they get when no context sets p. *)
+Lemma ex_nested_core_instance :
+  call FUEL (MkCtl None None None [] []) "MC" "get_processor_status"
+       [[("app_id", VInt 66)]; [("x", VInt 1); ("y", VInt 2); ("p", VInt 3)]] [VInt 5] []
+  = ([MkWire 0 1 (VInt 1) (VInt 2) (VInt 3) VNone [] []; MkWire 0 1 (VInt 1) (VInt 2) (VInt 3) VNone [] []], None).
+Proof. vm_compute. reflexivity. Qed.
